@@ -15,6 +15,8 @@ EXTENDS MIRSem, Json, Emit, IOUtils
 
 CONSTANTS NSlots,      \* number of random slots
           Vocab,       \* which template kinds are enabled
+          Glob,        \* "no" | "own" | "calls": a global variable tied to a hard register is declared by main (and read, written,
+                       \* used in arithmetic there) / also by helper g17 that main calls.  "calls" only where one engine runs everything.
           Abs,         \* TRUE: templates that address the caller's buffer by number (the harness maps it at AbsBaseNat)
           Lean         \* TRUE: no long-lived pointer registers and no global item (fewer loads that keep stores alive: the
                        \* dead-store and alias reasoning of the optimiser is then exercised on the alloca templates)
@@ -28,11 +30,13 @@ RBUF == 1   RFUEL == 8   RTMP == 9   RPA == 10   RTMP2 == 11
 IRegs == 2..7   DRegs == 12..14   FRegs == 15..16   LRegs == 17..18
 PRegs == 19..22   RPG == 23          \* pointers into the scratch area kept live over the whole body; address of gdat
 RIDX == 24 + (2 * NSlots)   \* long-lived index register (not Lean): inputs[1] & 1
+RSAVE == 26 + (2 * NSlots)  \* holds the native caller's contents of the global variable's hard register during main
+GV == [k |-> "greg"]
 RVAL == 25 + (2 * NSlots)   \* long-lived rarely used value (not Lean): inputs[2] + 5
 MainRegTy == <<"i", "i", "i", "i", "i", "i", "i", "i", "i", "i", "i", "d", "d", "d", "f", "f", "ld", "ld", "i", "i", "i", "i", "i">>
              \o [i \in 1..NSlots |-> "i"]     \* one alloca pointer register per slot (24..): every such pointer has a single definition
              \o [i \in 1..NSlots |-> "i"]     \* one stack-mark register per slot (bstart/bend)
-             \o <<"i", "i">>                  \* RIDX, RVAL: long-lived, rarely used index (0 or 1) and value
+             \o <<"i", "i", "i">>             \* RIDX, RVAL: long-lived, rarely used index (0 or 1) and value; RSAVE
 Reg(r) == [k |-> "reg", r |-> r]
 Imm(w) == [k |-> "imm", w |-> w]
 DRef == [k |-> "dref", b |-> 2]       \* address of the module's bss item gdat (memory block 2)
@@ -49,7 +53,9 @@ InsIn(op, d, s) == [op |-> op, d |-> d, s |-> s]
 Br(op, l, s) == [op |-> op, l |-> l, s |-> s]
 
 Prologue ==
-  [i \in 1..6 |-> InsIn("mov", Reg(i + 1), <<Mem("i64", 8 * (i - 1), RBUF, 0, 1)>>)]
+  (IF Glob = "no" THEN <<>> ELSE <<InsIn("mov", Reg(RSAVE), <<GV>>)>>)      \* the hard register belongs to the native caller: saved here ...
+  \o [i \in 1..6 |-> InsIn("mov", Reg(i + 1), <<Mem("i64", 8 * (i - 1), RBUF, 0, 1)>>)]
+  \o (IF Glob = "no" THEN <<>> ELSE <<InsIn("mov", GV, <<Reg(4)>>)>>)
   \o [i \in 1..3 |-> InsIn("dmov", Reg(11 + i), <<Mem("d", 48 + (8 * (i - 1)), RBUF, 0, 1)>>)]
   \o [i \in 1..2 |-> InsIn("fmov", Reg(14 + i), <<Mem("f", 72 + (4 * (i - 1)), RBUF, 0, 1)>>)]
   \o [i \in 1..2 |-> InsIn("ldmov", Reg(16 + i), <<Mem("ld", 80 + (16 * (i - 1)), RBUF, 0, 1)>>)]
@@ -69,6 +75,7 @@ Epilogue ==
   \o [i \in 1..3 |-> InsIn("dmov", Mem("d", 240 + (8 * (i - 1)), RBUF, 0, 1), <<Reg(11 + i)>>)]
   \o [i \in 1..2 |-> InsIn("fmov", Mem("f", 264 + (4 * (i - 1)), RBUF, 0, 1), <<Reg(14 + i)>>)]
   \o [i \in 1..2 |-> InsIn("ldmov", Mem("ld", 272 + (16 * (i - 1)), RBUF, 0, 1), <<Reg(16 + i)>>)]
+  \o (IF Glob = "no" THEN <<>> ELSE <<InsIn("mov", GV, <<Reg(RSAVE)>>)>>)   \* ... and put back before main returns
   \o <<[op |-> "ret", s |-> <<Reg(2)>>]>>
 
 (* ---------------- helper functions (fixed) ------------------------------- *)
@@ -169,6 +176,10 @@ G16 == [name |-> "g16", params |-> <<"i64">>, vararg |-> TRUE, res |-> <<"i64", 
                     InsIn("dadd", Reg(5), <<Reg(5), Reg(5)>>),
                     [op |-> "va_end", s |-> <<Reg(2)>>],
                     [op |-> "ret", s |-> <<Reg(3), Reg(5)>>]>>]
+(* g17 (i64 a) -> i64 : shares the global variable with main: gv := gv + a; returns gv + 1 *)
+G17 == [name |-> "g17", params |-> <<"i64">>, res |-> <<"i64">>, regty |-> <<"i", "i">>, gvar |-> TRUE,
+        insns |-> <<InsIn("add", GV, <<GV, Reg(1)>>), InsIn("mov", Reg(2), <<GV>>), InsIn("add", Reg(2), <<Reg(2), Imm(One64)>>),
+                    [op |-> "ret", s |-> <<Reg(2)>>]>>]
 FImm(fmt, x) == [k |-> "fimm", fmt |-> fmt, x |-> x]
 FImmVals == {Fin(0, 1, 0), Fin(1, 3, -1), Fin(0, 5, -3), Fin(0, 3, 20), Fin(0, 13, -4), FZero(0), Fin(0, 3, -40), Fin(1, 7, -33)}
 
@@ -216,8 +227,9 @@ KindsOf == IF Vocab = "int" THEN KindsInt ELSE IF Vocab = "link" THEN KindsLink
                                                                       "callg14", "icall", "icall5"}) \ {"callg3", "lref1", "lref2", "lref3", "callva"}   \* functions with at most one result
          ELSE KindsInt \cup KindsFp \cup {"calla", "callg6", "callg7", "rblk", "blkv", "callg12", "callg13", "callg14"}
 NeedFull == {"pld", "pst", "gcall", "pidxst"}
+KindsGlob == IF Glob = "no" THEN {} ELSE {"gset", "gget", "gadd"} \cup (IF Glob = "calls" THEN {"gcall2"} ELSE {})
 KindsAbs == IF Abs /\ Vocab \in {"all", "link", "int"} THEN {"absld", "absst", "absd"} ELSE {}
-Kinds == (IF Lean THEN KindsOf \ NeedFull ELSE KindsOf) \cup KindsAbs
+Kinds == (IF Lean THEN KindsOf \ NeedFull ELSE KindsOf) \cup KindsAbs \cup KindsGlob
 
 (* holes of each kind, in order; a hole name selects its domain below *)
 PA == 23 + slot        \* the alloca pointer register of the current slot
@@ -246,6 +258,10 @@ Holes(k) ==
     [] k = "divm" -> <<"divop32", "idst", "isrcreg", "isrcreg", "imem32">>
     [] k = "pidxst" -> <<"imemty4", "preg", "isrcreg", "isrcreg", "scale124">>
     [] k = "idx" -> <<"isrcreg", "imemty", "ireg", "scale">>
+    [] k = "gset" -> <<"isrc">>
+    [] k = "gget" -> <<"ireg">>
+    [] k = "gadd" -> <<"safebin", "isrc">>
+    [] k = "gcall2" -> <<"ireg", "isrc">>
     [] k = "absld" -> <<"ireg", "imemty", "ascale", "aoff">>
     [] k = "absst" -> <<"imemty", "ascale", "aoff", "isrc">>
     [] k = "absd" -> <<"ireg", "imemty", "aoff">>
@@ -346,6 +362,11 @@ Render(k, v) ==
                          InsIn("mov", Mem("i32", 4, PA, 0, 1), <<Imm(FromNat(77))>>),
                          InsIn("add", v[3], <<Mem("i64", 8, PA, 0, 1), Mem("u32", 4, PA, 0, 1)>>)>>
     [] k = "jmpi" -> <<[op |-> "laddr", d |-> Reg(RTMP2), l |-> v[1]], [op |-> "jmpi", s |-> <<Reg(RTMP2)>>]>>
+    \* the global variable tied to a hard register: written, read, operand and destination of arithmetic, shared with a callee
+    [] k = "gset" -> <<InsIn("mov", GV, <<v[1]>>)>>
+    [] k = "gget" -> <<InsIn("mov", v[1], <<GV>>)>>
+    [] k = "gadd" -> <<InsIn(v[1], GV, <<GV, v[2]>>)>>
+    [] k = "gcall2" -> <<[op |-> "call", callee |-> [k |-> "func", f |-> 18], res |-> <<v[1]>>, args |-> <<v[2]>>]>>
     \* the buffer addressed by number: index * scale without base and displacement, and a displacement alone
     [] k = "absld" -> <<InsIn("mov", Reg(RTMP), <<Imm(FromNat((AbsBaseNat + v[4]) \div v[3]))>>),
                         InsIn("mov", v[1], <<Mem(v[2], 0, 0, RTMP, v[3])>>)>>
@@ -527,16 +548,17 @@ InitMem(buf, lrs) ==
      cells |-> [i \in 1..20 |-> ByteC((<<11, 0, 0, 0>> \o <<254, 255, 255, 255>> \o <<255, 255, 255, 127>> \o <<5, 0, 0, 0, 0, 0, 0, 0>>)[i])]],
     [sz |-> 8 * Len(lrs), live |-> TRUE, cells |-> LrCellsOf(lrs)],
     [sz |-> 16, live |-> TRUE, cells |-> [j \in 1..16 |-> IF j <= 8 THEN [k |-> "p", i |-> j, b |-> 2, o |-> 8]
-                                                            ELSE [k |-> "fnc", i |-> j - 8, f |-> 6]]]>>
+                                                            ELSE [k |-> "fnc", i |-> j - 8, f |-> 6]]],
+    [sz |-> 8, live |-> TRUE, cells |-> OpaqueCells]>>       \* block 6 (GlobBlk): the global variable tied to a hard register
 InitFrames == <<[f |-> 1, id |-> 0, va |-> <<>>, pc |-> 1, regs |-> [r \in 1..Len(MainRegTy) |-> IF r = 1 THEN PtrV(1, 0) ELSE UndefV],
-                 base |-> 5, ovf |-> NoOvf]>>
+                 base |-> 6, ovf |-> NoOvf]>>
 MainFunc ==
-  [name |-> "main", params |-> <<"p">>, res |-> <<"i64">>, regty |-> MainRegTy, lrefs |-> LrSeq,
+  [name |-> "main", params |-> <<"p">>, res |-> <<"i64">>, regty |-> MainRegTy, lrefs |-> LrSeq, gvar |-> (Glob # "no"),
    insns |-> Prologue \o [i \in 1..Len(body) |-> Resolve(body[i])] \o Epilogue]
 Finalize ==
   /\ phase = "build" /\ slot = NSlots + 1 /\ cur.kind = ""
   /\ phase' = "run"
-  /\ prog' = [funcs |-> <<MainFunc, G1, G2, G3, G4, G5, G6, G7, G8, G9, G10, G11, G12, G13, G14, G15, G16>>]
+  /\ prog' = [funcs |-> <<MainFunc, G1, G2, G3, G4, G5, G6, G7, G8, G9, G10, G11, G12, G13, G14, G15, G16, G17>>]
   /\ mem' = InitMem(InitBuf, LrSeq)
   /\ frames' = InitFrames
   /\ status' = "run"
@@ -574,5 +596,5 @@ RegsTyped ==
   status = "run" =>
     \A i \in 1..Len(frames) : \A r \in 1..Len(frames[i].regs) :
       LET v == frames[i].regs[r]  ty == prog.funcs[frames[i].f].regty[r] IN
-      v.t = "u" \/ (ty = "i" /\ v.t \in {"i", "p", "l", "fn", "ld", "ra", "nv", "sm"}) \/ (ty # "i" /\ v.t = "f" /\ InFmt(v.x, ty))
+      v.t = "u" \/ (ty = "i" /\ v.t \in {"i", "p", "l", "fn", "ld", "ra", "nv", "sm", "op"}) \/ (ty # "i" /\ v.t = "f" /\ InFmt(v.x, ty))
 =============================================================================
